@@ -129,13 +129,15 @@ def model_validate(f, F, eps, n):
 
 
 # ------------------------------------------------------------------------------------------------ direct oracle on Gaussian pulses
-def gaussian_oracle(loc, scale, rng, fine=2001):
-    """returns (why or None, details) — independent of translator and model"""
+def gaussian_oracle(loc, scale, rng, fine=2001, pulse=None):
+    """returns (why or None, details) — independent of translator and model.  pulse: an object constructed EARLIER (other pulses
+    were constructed after it): a pulse is a function of its own (loc, scale), whatever else the process has built since"""
     import scipy.integrate
     from quantum_gates._gates.pulse import GaussianPulse
     det = {"pulse": ["gauss", loc, scale]}
     try:
-        p = GaussianPulse(loc=loc, scale=scale)
+        p = GaussianPulse(loc=loc, scale=scale) if pulse is None else pulse
+        if isinstance(p, Exception): raise p
     except AssertionError:
         return "constructor rejects a Gaussian with weight %.3g on [0,1]" % weight(loc, scale), det
     f, F = p.get_pulse(), p.get_parametrization()
@@ -387,11 +389,18 @@ def main(argv):
     failures = []   # (key, what, replay)
     # ---- Gaussian oracle
     low = 0
-    for fam, loc, scale in gen_gaussians(ck):
+    glist = gen_gaussians(ck)
+    built = []                     # all pulses are constructed first and examined afterwards (every third one is built on the spot instead)
+    for k, (fam, loc, scale) in enumerate(glist):
+        try:
+            built.append(None if k % 3 == 2 else P.GaussianPulse(loc=loc, scale=scale))
+        except AssertionError as e:
+            built.append(e)
+    for (fam, loc, scale), pre in zip(glist, built):
         w = weight(loc, scale)
         in_dom = w >= 1e-6
         try:
-            why, det = gaussian_oracle(loc, scale, ck.rng, fine=2001 if ck.tier == "quick" else 5001)
+            why, det = gaussian_oracle(loc, scale, ck.rng, fine=2001 if ck.tier == "quick" else 5001, pulse=pre)
         except Exception as e:  # noqa
             why, det = "oracle raised %s: %s" % (type(e).__name__, e), {"pulse": ["gauss", loc, scale]}
         ck.count("gaussian:" + fam + ("" if in_dom else ":low-weight(informational)"), 1, key=(hexf(loc), hexf(scale)),
